@@ -32,53 +32,63 @@ Definition epsg_table_sorted : list Z := fold_right zinsert [] epsg_table.
 
 (* ------------------------------------------------------------------------------------------------------------------ *)
 (* 1. the wrappers (control flow of /repo after the fix commits e07a6eb and dbefda0)                                   *)
+(* the code of a SpatialIdError (common/errors/errors.go) *)
+Inductive ekind := EInputValue | EOptionFailed | EValueConvert | EOther.
+Definition ekind_eqb (a b : ekind) : bool :=
+  match a, b with
+  | EInputValue, EInputValue | EOptionFailed, EOptionFailed | EValueConvert, EValueConvert | EOther, EOther => true
+  | _, _ => false
+  end.
+
 Section Wrapper.
   (* known c = (wgs84.EPSG().Code(c) != nil): the code is in the library's table *)
   Variable known : Z -> bool.
   (* tr from to a b c = wgs84.SafeTransform(wgs84.EPSG().Code(from), wgs84.EPSG().Code(to))(a, b, c); None = non-nil error *)
   Variable tr : Z -> Z -> float -> float -> float -> option (float * float * float).
 
-  Definition fwd_point (crs : Z) (p : point) : option ppoint :=
+  (* every error site of the two functions is errors.NewSpatialIdError(errors.ValueConvertErrorCode, "") *)
+  Definition fwd_point (crs : Z) (p : point) : ppoint + ekind :=
     match tr geo_crs crs (plon p) (plat p) (palt p) with
-    | Some (x, y, _) => Some {| px := x; py := y; pz := palt p |}     (* the height returned by the transform is dropped *)
-    | None => None
+    | Some (x, y, _) => inl {| px := x; py := y; pz := palt p |}     (* the height returned by the transform is dropped *)
+    | None => inr EValueConvert
     end.
   (* the transformed coordinates go through object.NewPoint; its refusal is a conversion error as well *)
-  Definition back_point (crs : Z) (q : ppoint) : option point :=
+  Definition back_point (crs : Z) (q : ppoint) : point + ekind :=
     match tr crs geo_crs (px q) (py q) (pz q) with
-    | Some (x, y, _) => let '(g, e) := new_point x y (pz q) in if e then None else Some g
-    | None => None
+    | Some (x, y, _) => let '(g, e) := new_point x y (pz q) in if e then inr EValueConvert else inl g
+    | None => inr EValueConvert
     end.
 
   (* `for _, p := range l { v, err := f(p); if err != nil { return out, error }; out = append(out, v) }; return out, nil` *)
-  Fixpoint map_until {A B} (f : A -> option B) (l : list A) : list B * bool :=
+  (* the second component is the returned error: None = nil, Some k = a SpatialIdError with code k *)
+  Fixpoint map_until {A B} (f : A -> B + ekind) (l : list A) : list B * option ekind :=
     match l with
-    | [] => ([], false)
+    | [] => ([], None)
     | a :: r => match f a with
-                | None => ([], true)
-                | Some b => let '(t, e) := map_until f r in (b :: t, e)
+                | inr k => ([], Some k)
+                | inl b => let '(t, e) := map_until f r in (b :: t, e)
                 end
     end.
 
   (* `if proCrsCode == nil { return empty, error }` comes before the loop: also for the empty list *)
-  Definition to_projected (l : list point) (crs : Z) : list ppoint * bool :=
-    if known crs then map_until (fwd_point crs) l else ([], true).
-  Definition to_geographic (l : list ppoint) (crs : Z) : list point * bool :=
-    if known crs then map_until (back_point crs) l else ([], true).
+  Definition to_projected (l : list point) (crs : Z) : list ppoint * option ekind :=
+    if known crs then map_until (fwd_point crs) l else ([], Some EValueConvert).
+  Definition to_geographic (l : list ppoint) (crs : Z) : list point * option ekind :=
+    if known crs then map_until (back_point crs) l else ([], Some EValueConvert).
   (* there and back through the same CRS (the second call is made only when the first returned no error) *)
-  Definition round_trip (l : list point) (crs : Z) : (list ppoint * bool) * (list point * bool) :=
+  Definition round_trip (l : list point) (crs : Z) : (list ppoint * option ekind) * (list point * option ekind) :=
     let f := to_projected l crs in
-    (f, if snd f then ([], false) else to_geographic (fst f) crs).
+    (f, match snd f with Some _ => ([], None) | None => to_geographic (fst f) crs end).
 
   (* HISTORICAL: the control flow before the two fix commits (no early check of the code; NewPoint's verdict ignored).
      Kept only for the regression Examples of section 4; nothing else refers to it. *)
-  Definition back_point_old (crs : Z) (q : ppoint) : option point :=
+  Definition back_point_old (crs : Z) (q : ppoint) : point + ekind :=
     match tr crs geo_crs (px q) (py q) (pz q) with
-    | Some (x, y, _) => Some (fst (new_point x y (pz q)))
-    | None => None
+    | Some (x, y, _) => inl (fst (new_point x y (pz q)))
+    | None => inr EValueConvert
     end.
-  Definition to_projected_old (l : list point) (crs : Z) : list ppoint * bool := map_until (fwd_point crs) l.
-  Definition to_geographic_old (l : list ppoint) (crs : Z) : list point * bool := map_until (back_point_old crs) l.
+  Definition to_projected_old (l : list point) (crs : Z) : list ppoint * option ekind := map_until (fwd_point crs) l.
+  Definition to_geographic_old (l : list ppoint) (crs : Z) : list point * option ekind := map_until (back_point_old crs) l.
 End Wrapper.
 
 (* ------------------------------------------------------------------------------------------------------------------ *)
@@ -149,33 +159,49 @@ Fixpoint forall2b {A B} (f : A -> B -> bool) (l : list A) (m : list B) : bool :=
 
 (* ------------------------------------------------------------------------------------------------------------------ *)
 (* 2. structural theorems, for every table `known` and every transform `tr`                                            *)
-Lemma map_until_ok {A B} (f : A -> option B) l :
-  snd (map_until f l) = false -> Forall2 (fun a b => f a = Some b) l (fst (map_until f l)).
+Lemma map_until_ok {A B} (f : A -> B + ekind) l :
+  snd (map_until f l) = None -> Forall2 (fun a b => f a = inl b) l (fst (map_until f l)).
 Proof.
   induction l as [|a r IH]; cbn [map_until]; intros H; [constructor|].
-  destruct (f a) as [b|] eqn:E; [|discriminate].
+  destruct (f a) as [b|k] eqn:E; [|discriminate].
   destruct (map_until f r) as [t e]; cbn [fst snd] in *. constructor; auto.
 Qed.
-Lemma map_until_err_iff {A B} (f : A -> option B) l :
-  snd (map_until f l) = true <-> Exists (fun a => f a = None) l.
+Lemma map_until_err_iff {A B} (f : A -> B + ekind) l k :
+  snd (map_until f l) = Some k <->
+  exists l1 a l2, l = l1 ++ a :: l2 /\ f a = inr k /\ Forall2 (fun a b => f a = inl b) l1 (fst (map_until f l)).
 Proof.
   induction l as [|a r IH]; cbn [map_until].
-  - split; [discriminate|]. intros H; inversion H.
-  - destruct (f a) as [b|] eqn:E.
+  - split; [discriminate|]. intros (l1 & a & l2 & E & _). destruct l1; discriminate.
+  - destruct (f a) as [b|k'] eqn:E.
+    + destruct (map_until f r) as [t e]; cbn [fst snd] in *. rewrite IH. split.
+      * intros (l1 & a' & l2 & -> & Hn & HF). exists (a :: l1), a', l2. repeat split; auto.
+      * intros (l1 & a' & l2 & El & Hn & HF). destruct l1 as [|a0 l1]; cbn in El; inversion El; subst.
+        { congruence. }
+        inversion HF; subst. exists l1, a', l2. repeat split; auto.
+    + cbn [fst snd]. split.
+      * intros H. assert (k' = k) by congruence. subst k'. exists [], a, r. split; [reflexivity|]. split; [exact E|]. constructor.
+      * intros (l1 & a' & l2 & El & Hn & HF). destruct l1 as [|a0 l1]; cbn in El; inversion El; subst; [congruence|].
+        inversion HF.
+Qed.
+Lemma map_until_err_exists {A B} (f : A -> B + ekind) l :
+  snd (map_until f l) <> None <-> Exists (fun a => exists k, f a = inr k) l.
+Proof.
+  induction l as [|a r IH]; cbn [map_until].
+  - cbn [snd]. split; [congruence|]. intros H; inversion H.
+  - destruct (f a) as [b|k] eqn:E.
     + destruct (map_until f r) as [t e]; cbn [fst snd] in *. rewrite IH. split; intros H.
       * now apply Exists_cons_tl.
-      * inversion H; subst; [congruence|assumption].
-    + cbn [snd]. split; intros _; [now apply Exists_cons_hd|reflexivity].
+      * inversion H as [? ? (k & Hk)|]; subst; [congruence|assumption].
+    + cbn [snd]. split; [|discriminate]. intros _. apply Exists_cons_hd. eauto.
 Qed.
-Lemma map_until_prefix {A B} (f : A -> option B) l :
-  snd (map_until f l) = true ->
-  exists l1 a l2, l = l1 ++ a :: l2 /\ f a = None /\ Forall2 (fun a b => f a = Some b) l1 (fst (map_until f l)).
+(* when every error site produces the same code, that is the code returned *)
+Lemma map_until_kind {A B} (f : A -> B + ekind) K l : (forall a k, f a = inr k -> k = K) ->
+  snd (map_until f l) = None \/ snd (map_until f l) = Some K.
 Proof.
-  induction l as [|a r IH]; cbn [map_until]; [discriminate|].
-  destruct (f a) as [b|] eqn:E.
-  - destruct (map_until f r) as [t e]; cbn [fst snd] in *. intros H.
-    destruct (IH H) as (l1 & a' & l2 & -> & Hn & HF). exists (a :: l1), a', l2. repeat split; auto.
-  - intros _. exists [], a, r. repeat split; auto. constructor.
+  intros HK. induction l as [|a r IH]; cbn [map_until]; [now left|].
+  destruct (f a) as [b|k] eqn:E.
+  - destruct (map_until f r) as [t e]; cbn [fst snd] in *. exact IH.
+  - right. cbn. f_equal. eapply HK, E.
 Qed.
 Lemma Forall2_impl {A B} (R S : A -> B -> Prop) l m : (forall a b, R a b -> S a b) -> Forall2 R l m -> Forall2 S l m.
 Proof. intros H. induction 1; constructor; auto. Qed.
@@ -198,7 +224,7 @@ Section WrapperThm.
   (* what one output element of the forward direction is *)
   Definition fwd_rel (crs : Z) (p : point) (q : ppoint) : Prop :=
     exists x y z, tr geo_crs crs (plon p) (plat p) (palt p) = Some (x, y, z) /\ px q = x /\ py q = y /\ pz q = palt p.
-  Lemma fwd_point_rel crs p q : fwd_point tr crs p = Some q <-> fwd_rel crs p q.
+  Lemma fwd_point_rel crs p q : fwd_point tr crs p = inl q <-> fwd_rel crs p q.
   Proof.
     unfold fwd_point, fwd_rel. destruct (tr geo_crs crs (plon p) (plat p) (palt p)) as [[[x y] z]|].
     - split.
@@ -206,44 +232,58 @@ Section WrapperThm.
       + intros (x' & y' & z' & E & Hx & Hy & Hz). inversion E; subst. destruct q; cbn in *. now subst.
     - split; [discriminate|]. intros (? & ? & ? & E & _). discriminate.
   Qed.
-  Lemma fwd_point_none crs p : fwd_point tr crs p = None <-> tr geo_crs crs (plon p) (plat p) (palt p) = None.
-  Proof. unfold fwd_point. destruct (tr _ _ _ _ _) as [[[x y] z]|]; split; congruence. Qed.
+  Lemma fwd_point_err crs p k : fwd_point tr crs p = inr k <-> tr geo_crs crs (plon p) (plat p) (palt p) = None /\ k = EValueConvert.
+  Proof.
+    unfold fwd_point. destruct (tr _ _ _ _ _) as [[[x y] z]|]; split.
+    - discriminate. - intros [? _]; discriminate. - intros H; inversion H; auto. - intros [_ ->]; reflexivity.
+  Qed.
 
-  Lemma to_projected_known l crs : snd (to_projected known tr l crs) = false -> known crs = true.
+  Lemma to_projected_known l crs : snd (to_projected known tr l crs) = None -> known crs = true.
   Proof. unfold to_projected. destruct (known crs); [reflexivity | discriminate]. Qed.
-  Lemma to_geographic_known l crs : snd (to_geographic known tr l crs) = false -> known crs = true.
+  Lemma to_geographic_known l crs : snd (to_geographic known tr l crs) = None -> known crs = true.
   Proof. unfold to_geographic. destruct (known crs); [reflexivity | discriminate]. Qed.
+
+  (* every error of the two functions is a conversion error *)
+  Theorem to_projected_kind l crs :
+    snd (to_projected known tr l crs) = None \/ snd (to_projected known tr l crs) = Some EValueConvert.
+  Proof.
+    unfold to_projected. destruct (known crs); [|now right]. apply map_until_kind. intros p k H. now apply fwd_point_err in H.
+  Qed.
 
   (* no error: the code is known, the i-th output is the transform of the i-th input (length and order), with the input's altitude *)
   Theorem to_projected_ok l crs :
-    snd (to_projected known tr l crs) = false -> Forall2 (fwd_rel crs) l (fst (to_projected known tr l crs)).
+    snd (to_projected known tr l crs) = None -> Forall2 (fwd_rel crs) l (fst (to_projected known tr l crs)).
   Proof.
     intros H. pose proof (to_projected_known _ _ H) as K. unfold to_projected in *. rewrite K in *.
     apply map_until_ok in H. eapply Forall2_impl; [|exact H]. intros p q. apply fwd_point_rel.
   Qed.
   Corollary to_projected_length l crs :
-    snd (to_projected known tr l crs) = false -> length (fst (to_projected known tr l crs)) = length l.
+    snd (to_projected known tr l crs) = None -> length (fst (to_projected known tr l crs)) = length l.
   Proof. intros H. symmetry. eapply Forall2_length', to_projected_ok, H. Qed.
-  (* the error result is returned exactly when the code is unknown or the transform refuses some point *)
+  (* a conversion error is returned exactly when the code is unknown or the transform refuses some point *)
   Theorem to_projected_err_iff l crs :
-    snd (to_projected known tr l crs) = true <->
+    snd (to_projected known tr l crs) = Some EValueConvert <->
     known crs = false \/ Exists (fun p => tr geo_crs crs (plon p) (plat p) (palt p) = None) l.
   Proof.
-    unfold to_projected. destruct (known crs).
-    - rewrite map_until_err_iff. split.
-      + intros H. right. eapply Exists_impl; [|exact H]. intros p. apply fwd_point_none.
-      + intros [H|H]; [discriminate|]. eapply Exists_impl; [|exact H]. intros p. apply fwd_point_none.
+    pose proof (to_projected_kind l crs) as KD. unfold to_projected in *. destruct (known crs).
+    - assert (E : snd (map_until (fwd_point tr crs) l) <> None <-> Exists (fun p => tr geo_crs crs (plon p) (plat p) (palt p) = None) l).
+      { rewrite map_until_err_exists. split; intros H; (eapply Exists_impl; [|exact H]); intros p.
+        - intros (k & Hk). now apply fwd_point_err in Hk.
+        - intros Hn. exists EValueConvert. now apply fwd_point_err. }
+      split.
+      + intros H. right. apply E. congruence.
+      + intros [H|H]; [discriminate|]. apply E in H. destruct KD; congruence.
     - cbn [snd]. split; auto.
   Qed.
   (* and, for a known code, the list returned with the error holds the images of the points before the first refused one *)
   Theorem to_projected_err_prefix l crs : known crs = true ->
-    snd (to_projected known tr l crs) = true ->
+    snd (to_projected known tr l crs) = Some EValueConvert ->
     exists l1 p l2, l = l1 ++ p :: l2 /\ tr geo_crs crs (plon p) (plat p) (palt p) = None /\
                     Forall2 (fwd_rel crs) l1 (fst (to_projected known tr l crs)).
   Proof.
     unfold to_projected. intros K. rewrite K. intros H.
-    destruct (map_until_prefix _ _ H) as (l1 & p & l2 & E & Hn & F). exists l1, p, l2. repeat split; auto.
-    - now apply fwd_point_none.
+    apply map_until_err_iff in H. destruct H as (l1 & p & l2 & E & Hn & F). exists l1, p, l2. repeat split; auto.
+    - now apply fwd_point_err in Hn.
     - eapply Forall2_impl; [|exact F]. intros a b. apply fwd_point_rel.
   Qed.
 
@@ -256,7 +296,7 @@ Section WrapperThm.
   Definition back_refused (crs : Z) (q : ppoint) : Prop :=
     tr crs geo_crs (px q) (py q) (pz q) = None \/
     exists x y z, tr crs geo_crs (px q) (py q) (pz q) = Some (x, y, z) /\ snd (new_point x y (pz q)) = true.
-  Lemma back_point_rel crs q g : back_point tr crs q = Some g <-> back_rel crs q g.
+  Lemma back_point_rel crs q g : back_point tr crs q = inl g <-> back_rel crs q g.
   Proof.
     unfold back_point, back_rel. destruct (tr crs geo_crs (px q) (py q) (pz q)) as [[[x y] z]|].
     - destruct (new_point x y (pz q)) as [g' e] eqn:N. split.
@@ -266,58 +306,69 @@ Section WrapperThm.
         pose proof (new_point_accepts x' y' (pz q)) as A. rewrite N in A. cbn [fst snd] in A. now rewrite A.
     - split; [discriminate|]. intros (? & ? & ? & E & _). discriminate.
   Qed.
-  Lemma back_point_none crs q : back_point tr crs q = None <-> back_refused crs q.
+  Lemma back_point_err crs q k : back_point tr crs q = inr k <-> back_refused crs q /\ k = EValueConvert.
   Proof.
     unfold back_point, back_refused. destruct (tr crs geo_crs (px q) (py q) (pz q)) as [[[x y] z]|].
     - destruct (new_point x y (pz q)) as [g' e] eqn:N. destruct e; split.
-      + intros _. right. exists x, y, z. rewrite N. auto.
-      + reflexivity.
+      + intros H. inversion H. split; auto. right. exists x, y, z. rewrite N. auto.
+      + intros [_ ->]. reflexivity.
       + discriminate.
-      + intros [H|(x' & y' & z' & E & Hs)]; [discriminate|]. inversion E; subst. rewrite N in Hs. discriminate.
-    - split; auto.
+      + intros [[H|(x' & y' & z' & E & Hs)] _]; [discriminate|]. inversion E; subst. rewrite N in Hs. discriminate.
+    - split; [intros H; inversion H; auto | intros [_ ->]; reflexivity].
   Qed.
 
+  Theorem to_geographic_kind l crs :
+    snd (to_geographic known tr l crs) = None \/ snd (to_geographic known tr l crs) = Some EValueConvert.
+  Proof.
+    unfold to_geographic. destruct (known crs); [|now right]. apply map_until_kind. intros p k H. now apply back_point_err in H.
+  Qed.
   (* no error: length and order, and every output point carries its input's altitude itself *)
   Theorem to_geographic_ok l crs :
-    snd (to_geographic known tr l crs) = false -> Forall2 (back_rel crs) l (fst (to_geographic known tr l crs)).
+    snd (to_geographic known tr l crs) = None -> Forall2 (back_rel crs) l (fst (to_geographic known tr l crs)).
   Proof.
     intros H. pose proof (to_geographic_known _ _ H) as K. unfold to_geographic in *. rewrite K in *.
     apply map_until_ok in H. eapply Forall2_impl; [|exact H]. intros p q. apply back_point_rel.
   Qed.
   Corollary to_geographic_length l crs :
-    snd (to_geographic known tr l crs) = false -> length (fst (to_geographic known tr l crs)) = length l.
+    snd (to_geographic known tr l crs) = None -> length (fst (to_geographic known tr l crs)) = length l.
   Proof. intros H. symmetry. eapply Forall2_length', to_geographic_ok, H. Qed.
   Corollary to_geographic_altitude l crs :
-    snd (to_geographic known tr l crs) = false -> Forall2 (fun q g => palt g = pz q) l (fst (to_geographic known tr l crs)).
+    snd (to_geographic known tr l crs) = None -> Forall2 (fun q g => palt g = pz q) l (fst (to_geographic known tr l crs)).
   Proof. intros H. eapply Forall2_impl; [|apply to_geographic_ok, H]. intros q g (x & y & z & _ & _ & ->). reflexivity. Qed.
   Theorem to_geographic_err_iff l crs :
-    snd (to_geographic known tr l crs) = true <-> known crs = false \/ Exists (back_refused crs) l.
+    snd (to_geographic known tr l crs) = Some EValueConvert <-> known crs = false \/ Exists (back_refused crs) l.
   Proof.
-    unfold to_geographic. destruct (known crs).
-    - rewrite map_until_err_iff. split.
-      + intros H. right. eapply Exists_impl; [|exact H]. intros p. apply back_point_none.
-      + intros [H|H]; [discriminate|]. eapply Exists_impl; [|exact H]. intros p. apply back_point_none.
+    pose proof (to_geographic_kind l crs) as KD. unfold to_geographic in *. destruct (known crs).
+    - assert (E : snd (map_until (back_point tr crs) l) <> None <-> Exists (back_refused crs) l).
+      { rewrite map_until_err_exists. split; intros H; (eapply Exists_impl; [|exact H]); intros p.
+        - intros (k & Hk). now apply back_point_err in Hk.
+        - intros Hn. exists EValueConvert. now apply back_point_err. }
+      split.
+      + intros H. right. apply E. congruence.
+      + intros [H|H]; [discriminate|]. apply E in H. destruct KD; congruence.
     - cbn [snd]. split; auto.
   Qed.
   Theorem to_geographic_err_prefix l crs : known crs = true ->
-    snd (to_geographic known tr l crs) = true ->
+    snd (to_geographic known tr l crs) = Some EValueConvert ->
     exists l1 q l2, l = l1 ++ q :: l2 /\ back_refused crs q /\ Forall2 (back_rel crs) l1 (fst (to_geographic known tr l crs)).
   Proof.
     unfold to_geographic. intros K. rewrite K. intros H.
-    destruct (map_until_prefix _ _ H) as (l1 & p & l2 & E & Hn & F). exists l1, p, l2. repeat split; auto.
-    - now apply back_point_none.
+    apply map_until_err_iff in H. destruct H as (l1 & p & l2 & E & Hn & F). exists l1, p, l2. repeat split; auto.
+    - now apply back_point_err in Hn.
     - eapply Forall2_impl; [|exact F]. intros a b. apply back_point_rel.
   Qed.
 
-  (* ---- unknown EPSG code: conversion error with the empty list, whatever the input (also the empty one), both directions ---- *)
+  (* ---- unknown EPSG code: the empty list and a CONVERSION error (errors.ValueConvertErrorCode), whatever the input list (also the
+     empty one), both directions ---- *)
   Theorem unknown_epsg crs : known crs = false ->
-    (forall l, to_projected known tr l crs = ([], true)) /\ (forall l, to_geographic known tr l crs = ([], true)).
+    (forall l, to_projected known tr l crs = ([], Some EValueConvert)) /\
+    (forall l, to_geographic known tr l crs = ([], Some EValueConvert)).
   Proof. intros K. unfold to_projected, to_geographic. rewrite K. split; reflexivity. Qed.
 
   (* ---- there and back: same length, same order, every point keeps its altitude ---- *)
   Theorem round_trip_shape l crs :
     let r := round_trip known tr l crs in
-    snd (fst r) = false -> snd (snd r) = false ->
+    snd (fst r) = None -> snd (snd r) = None ->
     length (fst (snd r)) = length l /\
     Forall2 (fun p g => exists q, fwd_rel crs p q /\ back_rel crs q g /\ palt g = palt p) l (fst (snd r)).
   Proof.
@@ -331,10 +382,10 @@ Section WrapperThm.
     exists q. repeat split; auto. destruct Hb as (x & y & z & _ & _ & ->). cbn [palt].
     destruct R as (? & ? & ? & _ & _ & _ & E). exact E.
   Qed.
-  (* the back conversion of a round trip fails exactly when some projected image is refused *)
+  (* the back conversion of a round trip fails (with a conversion error) exactly when some projected image is refused *)
   Theorem round_trip_back_error l crs :
     let r := round_trip known tr l crs in
-    snd (fst r) = false -> (snd (snd r) = true <-> Exists (back_refused crs) (fst (fst r))).
+    snd (fst r) = None -> (snd (snd r) = Some EValueConvert <-> Exists (back_refused crs) (fst (fst r))).
   Proof.
     unfold round_trip. cbn zeta. cbn [fst snd]. intros H1. rewrite H1. rewrite to_geographic_err_iff.
     rewrite (to_projected_known _ _ H1). split; [intros [H|H]; [discriminate | exact H] | auto].
@@ -504,21 +555,21 @@ Definition q_d18 : ppoint := {| px := 0x1.d8360270c693ep+23; py := 0x1.31bf8457d
 (* REPAIRED by dbefda0 (was D18, lat_limit_overshoot). Current control flow: NewPoint's refusal is a conversion error, nothing is
    appended for the refused point ... *)
 Example lat_limit_overshoot_now_error :
-  round_trip epsg_known tr_d18 [p_d18] orth_crs = (([q_d18], false), ([], true)).
+  round_trip epsg_known tr_d18 [p_d18] orth_crs = (([q_d18], None), ([], Some EValueConvert)).
 Proof. vm_compute. reflexivity. Qed.
 (* ... HISTORICAL behaviour before the repair: no error, and the point came back as (139, 0, 0) *)
 Example lat_limit_overshoot_historical :
-  to_geographic_old tr_d18 [q_d18] orth_crs = ([ {| plon := 139; plat := 0; palt := 0 |} ], false).
+  to_geographic_old tr_d18 [q_d18] orth_crs = ([ {| plon := 139; plat := 0; palt := 0 |} ], None).
 Proof. vm_compute. reflexivity. Qed.
 
 (* REPAIRED by e07a6eb (was D19, unknown_epsg_empty_list). Current control flow: see `unknown_epsg`; on the regression input ... *)
 Example unknown_epsg_empty_list_now_error :
   epsg_known 99999 = false /\
-  forall tr, to_projected epsg_known tr [] 99999 = ([], true) /\ to_geographic epsg_known tr [] 99999 = ([], true).
+  forall tr, to_projected epsg_known tr [] 99999 = ([], Some EValueConvert) /\ to_geographic epsg_known tr [] 99999 = ([], Some EValueConvert).
 Proof. split; [vm_compute; reflexivity | intros tr; split; reflexivity]. Qed.
 (* ... HISTORICAL behaviour before the repair: the loop body, where the transform's error surfaced, never ran for the empty list *)
 Example unknown_epsg_empty_list_historical :
-  forall tr crs, to_projected_old tr [] crs = ([], false) /\ to_geographic_old tr [] crs = ([], false).
+  forall tr crs, to_projected_old tr [] crs = ([], None) /\ to_geographic_old tr [] crs = ([], None).
 Proof. intros tr crs. split; reflexivity. Qed.
 
 (* non-vacuity of the checkers: the observed image of (139, 35, 0) passes the easting check, +-180 are the same meridian *)
@@ -537,32 +588,36 @@ Proof. vm_compute. repeat split; reflexivity. Qed.
 Example to_projected_nonvacuous :
   let tr := fun (_ _ : Z) (a b c : float) => Some ((a + a)%float, (b + 1)%float, 0%float) in
   let l := [ {| plon := 1; plat := 2; palt := 3 |}; {| plon := 1; plat := 2; palt := 4 |} ] in
-  to_projected epsg_known tr l 3857 = ([ {| px := 2; py := 3; pz := 3 |}; {| px := 2; py := 3; pz := 4 |} ], false) /\
-  to_projected epsg_known tr l 3395 = ([], true).
+  to_projected epsg_known tr l 3857 = ([ {| px := 2; py := 3; pz := 3 |}; {| px := 2; py := 3; pz := 4 |} ], None) /\
+  to_projected epsg_known tr l 3395 = ([], Some EValueConvert).
 Proof. vm_compute. split; reflexivity. Qed.
 (* backward through a toy transform: the second point maps to latitude 86 and is refused; the first one is returned with the error *)
 Example to_geographic_nonvacuous :
   let tr := fun (_ _ : Z) (a b c : float) => Some (a, b, 0%float) in
   to_geographic epsg_known tr [ {| px := 10; py := 20; pz := 0x1.b2fffffffffffp+8 |}; {| px := 10; py := 86; pz := 7 |} ] 3857
-  = ([ {| plon := 10; plat := 20; palt := 0x1.b2fffffffffffp+8 |} ], true).
+  = ([ {| plon := 10; plat := 20; palt := 0x1.b2fffffffffffp+8 |} ], Some EValueConvert).
 Proof. vm_compute. reflexivity. Qed.
 
 (* ------------------------------------------------------------------------------------------------------------------ *)
 (* 5. statements in the form used by properties/C18.v *)
 Theorem to_geographic_spec (known : Z -> bool) (tr : Z -> Z -> float -> float -> float -> option (float * float * float)) l crs :
-  snd (to_geographic known tr l crs) = false ->
+  snd (to_geographic known tr l crs) = None ->
   Forall2 (fun q g => exists x y z, tr crs geo_crs (px q) (py q) (pz q) = Some (x, y, z) /\ snd (new_point x y (pz q)) = false /\
                                     g = {| plon := x; plat := setlat_trunc y; palt := pz q |})
           l (fst (to_geographic known tr l crs)).
 Proof. apply to_geographic_ok. Qed.
 Theorem error_iff (known : Z -> bool) (tr : Z -> Z -> float -> float -> float -> option (float * float * float)) crs :
-  (forall l, snd (to_projected known tr l crs) = true <->
+  (forall l, snd (to_projected known tr l crs) = Some EValueConvert <->
              known crs = false \/ Exists (fun p => tr geo_crs crs (plon p) (plat p) (palt p) = None) l) /\
-  (forall l, snd (to_geographic known tr l crs) = true <->
+  (forall l, snd (to_geographic known tr l crs) = Some EValueConvert <->
              known crs = false \/
              Exists (fun q => tr crs geo_crs (px q) (py q) (pz q) = None \/
                               exists x y z, tr crs geo_crs (px q) (py q) (pz q) = Some (x, y, z) /\ snd (new_point x y (pz q)) = true) l).
 Proof. split; intros l; [apply to_projected_err_iff | apply to_geographic_err_iff]. Qed.
+Theorem error_kind (known : Z -> bool) (tr : Z -> Z -> float -> float -> float -> option (float * float * float)) crs :
+  (forall l, snd (to_projected known tr l crs) = None \/ snd (to_projected known tr l crs) = Some EValueConvert) /\
+  (forall l, snd (to_geographic known tr l crs) = None \/ snd (to_geographic known tr l crs) = Some EValueConvert).
+Proof. split; intros l; [apply to_projected_kind | apply to_geographic_kind]. Qed.
 
 (* ------------------------------------------------------------------------------------------------------------------ *)
 (* 6. what `fq` means *)
